@@ -341,6 +341,12 @@ def scripted_cases():
         {"p": 0, "op": "parse_string", "items": [["k", "5"], ["fit.lr", "2"]]},
         {"p": 0, "op": "parse_args", "argv": []},
         {"p": 0, "op": "get_defaults"}]))
+    # a request consumed by an EMPTY --cfg inside parse_args dumps nothing (dump_kwargs stays unset)
+    hs.append(([plain, subs], [
+        {"p": 0, "op": "parse_args", "argv": [["flag", "print_config"], ["opt", "k", "5"], ["cfg", []], ["opt", "k", "bad"]]},
+        {"p": 1, "op": "parse_args", "argv": [["opt", "print_config", "skip_null"], ["cfg", [["k", "2"]]]]},
+        {"p": 0, "op": "parse_env", "items": []},
+        {"p": 0, "op": "parse_args", "argv": [["flag", "print_config"]]}]))
     hs.append(([cb, subs], [
         {"p": 0, "op": "parse_args", "argv": [["opt", "cb.help", "SubA"]]},
         {"p": 1, "op": "parse_args", "argv": [["opt", "model.help", "SubA"]]},
